@@ -16,7 +16,7 @@ OUT = os.path.join(ROOT, "out", "replay")
 
 def _save(prop, r, payload):
     os.makedirs(OUT, exist_ok=True)
-    p = os.path.join(OUT, "%s-%s.json" % (prop, r["harness"].replace("::", ".")))
+    p = os.path.join(OUT, "%s-%s-%s.json" % (prop, r.get("group", "x"), r["harness"].replace("::", ".")))
     payload = dict(payload)
     payload.update({"property": prop, "harness": r["harness"], "group": r["group"],
                     "failed_checks": r.get("failed", [])[:10], "saved_at": time.strftime("%Y-%m-%dT%H:%M:%SZ", time.gmtime())})
